@@ -162,9 +162,10 @@ BuildPred(t, st, bn, uv, outer) ==
                 st1 == AddNode(r.st, [k |-> "pnot", a |-> r.top])
             IN Res(st1, LastId(st1), r.bn, r.uv, r.err)
       [] t.tt = "PRED_SUBX_ANY" ->
-            LET s == SubChain(t.ch[1], st, bn, uv, outer)
+            \* a sub-expression context has a scope of its own (bindings scope {bn}, repair dd9d3fd)
+            LET s == SubChain(t.ch[1], st, [map |-> bn.map, cur |-> {}], uv, outer)
                 st1 == AddNode(s.st, [k |-> "psubx", origin |-> s.origin, op |-> s.op])
-            IN Res(st1, LastId(st1), s.bn, s.uv, s.err)
+            IN Res(st1, LastId(st1), bn, s.uv, s.err)
 
 \* the captured values of a block, pushed from the highest id down: a name of the enclosing frame is
 \* read directly, anything else is an up-value of the enclosing block
@@ -193,9 +194,10 @@ BuildFmtT(ch, j, sup, st, bn, uv, outer, err) ==
     ELSE IF ch[j].tt = "STR"
     THEN LET st1 == AddNode(st, [k |-> "slit", up |-> sup, str |-> ch[j].x])
          IN BuildFmtT(ch, j - 1, LastId(st1), st1, bn, uv, outer, err)
-    ELSE LET s == SubChain(ch[j], st, bn, uv, outer)
+    ELSE \* the embedded expression is a sub-expression context: a scope of its own
+         LET s == SubChain(ch[j], st, [map |-> bn.map, cur |-> {}], uv, outer)
              st2 == AddNode(s.st, [k |-> "sop", up |-> sup, origin |-> s.origin, op |-> s.op])
-         IN BuildFmtT(ch, j - 1, LastId(st2), st2, s.bn, s.uv, outer, err \/ s.err)
+         IN BuildFmtT(ch, j - 1, LastId(st2), st2, bn, s.uv, outer, err \/ s.err)
 
 \* A whole query: origin first, as zw_query_parse does; `simp': with tree::simplify (the default)
 BuildQueryT(t) ==
